@@ -11,7 +11,7 @@ list of chains (any number, any depth, any spins, any couplings / line-shape val
 
 * `amp_is_chain_tensor`: the model amplitude of a chain is `Σ_μ D^{J*}_{λ_A μ}(α,β,γ) · T[μ, finals]` with `D` the
   matrix `FrameAlg.DConj` of C01/C12 and a remainder `T` that depends neither on `λ_A` nor on the top angles;
-* `model_density_top_mix` / `model_density_rot_invariant`: if the top-vertex D-matrix of every chain is left-multiplied
+* `model_density_top_mix` / `model_density_top_rot_invariant`: if the top-vertex D-matrix of every chain is left-multiplied
   by ONE common unitary (`D(R)` for a rotation that composes in SU(2): `DConj_compose`), the helicity-summed density of
   the model is unchanged;
 * `amp_linear_in_total`, `amp_linear_in_top_couplings`, `amp_linear_in_vertex_couplings`, `helicity_coupling_formula`,
@@ -115,17 +115,13 @@ theorem model_density_top_unitary (N : ℕ) (U : Matrix (Fin (N + 1)) (Fin (N + 
   · rw [hD C hC, Matrix.mul_apply]
   · simp
 
-/-- FULL (b): replacing the top-vertex D by `D(R)·D` AND the alignment D-function of every final-state particle by
-`D·V_p` with one unitary `V_p` per final particle (common to all chains) leaves the helicity-summed density of the model
-unchanged.
-
-Proved part (`_partial`): the top vertex — for every spin `N/2 ≤ 4` of the top particle, every rotation `(a,b,c)`,
+/-- **(b), top vertex, hypotheses about angles**: for every spin `N/2 ≤ 4` of the top particle, every rotation `(a,b,c)`,
 every list of chains, if the top-vertex rotation of every chain composes with it in SU(2)
 (`rot3 α' β' γ' = rot3 a b c · rot3 α β γ`, the hypothesis discharged for lab-fixed axes in `Props/C01b`), the density of
-the model is unchanged.  Missing: the mixing of the primed final-state indices through the alignment D-functions
-(the same `unitary_mix` argument applied to the index of one final particle inside the nested helicity sum
-`sumOverR finals`; the abstract statement for product index sets is `C01.density_unitary_invariant`). -/
-theorem model_density_rot_invariant_partial (N : ℕ) (hN : N ≤ 8) (a b c : ℝ)
+the model is unchanged.  The FULL statement (b) — this one together with the mixing of the primed final-state indices
+through the alignment D-functions, one common rotation per final particle — is `C01e.model_density_rot_invariant`
+(`Props/C01e.lean`); this theorem is its top-vertex step (formerly `model_density_rot_invariant_partial`). -/
+theorem model_density_top_rot_invariant (N : ℕ) (hN : N ≤ 8) (a b c : ℝ)
     (cs : List Chain) (ang' ang : Chain → ℝ × ℝ × ℝ) (Dal : Chain → Align → Int → Int → Cx)
     (finals : List (Nat × List Int))
     (hcomp : ∀ C ∈ cs, C01.rot3 (ang' C).1 (ang' C).2.1 (ang' C).2.2
